@@ -8,7 +8,7 @@ CHECKS = {
  "C20": dict(
   engine="E1",
   technique=TECH_E1 + "; structured subsets of the 2^128 id space and all short strings over a 12-character alphabet",
-  text="Every identifier in the structured subsets (<=2 bits set, <=3 non-zero boundary bytes, powers of 62 and neighbours, every leading-zero count, top of range) renders to 22 pattern-conforming characters and parses back; renderings are pairwise distinct; every string of length <=3 over a 12-character alphabet plus overflow/long strings is parsed without panic and never accepted with a value >= 2^128; NewHash is equal across calls and across processes. Bounded: the 2^128 space is covered on boundary families only.",
+  text="Every identifier in the structured subsets (<=2 bits set, <=3 non-zero boundary bytes, powers of 62 and neighbours, every leading-zero count, top of range) renders to 22 pattern-conforming characters and parses back; renderings are pairwise distinct; every string of length <=3 over a 12-character alphabet plus overflow/long strings is parsed without panic and never accepted with a value >= 2^128; NewHash is equal across calls and across processes. Bounded: the 2^128 space is covered on boundary families only. Hash purity: 5 namespaces x ~150 input lists including lists that coincide once joined with one of 7 separators, computed in list order and in reverse order in fresh processes.",
   note="math/big, crypto/sha1, regexp trusted; values outside the enumerated families rest on the stated arithmetic argument",
   design="3/C20"),
 
@@ -45,7 +45,7 @@ CHECKS = {
  "C06": dict(
   engine="E1",
   technique=TECH_E1 + "; all JSON token sequences up to a length bound per target type, shape matrix, all prefixes / byte substitutions, nesting bombs, url.Values menus; crash / hang oracle with subprocess isolation",
-  text="No panic, runtime fatal, stack exhaustion or hang for: every concatenation of <=4 (quick) / <=5 (thorough) tokens of a 16-symbol JSON alphabet into 12 target types (every structural kind incl. recursive types and a oneof root); every kind x label x context schema x 45 JSON values of depth <=2 in the field position; every prefix and every single-byte substitution (12 bytes) of a canonical document per schema; nesting bombs to depth 10^4 (10^5 thorough) through every recursive path, 10^5-digit numbers / keys / escapes; growth oracle without a clock: for 20 input shapes (every recursive path closed / truncated, many keys / elements / map keys / unknown keys, long strings / digits) a 4x larger input may allocate at most 10x more bytes (linear = 4x, quadratic = 16x); url.Values with 22 keys x 12 value lists per schema and all key pairs of a 17-key menu.",
+  text="No panic, runtime fatal, stack exhaustion or hang for: every concatenation of <=4 (quick) / <=5 (thorough) tokens of a 16-symbol JSON alphabet into 12 target types (every structural kind incl. recursive types and a oneof root); every kind x label x context schema x 45 JSON values of depth <=2 in the field position; every prefix and every single-byte substitution (12 bytes) of a canonical document per schema; nesting bombs to depth 10^4 (10^5 thorough) through every recursive path, 10^5-digit numbers / keys / escapes; growth oracle without a clock: for 20 input shapes (every recursive path closed / truncated, many keys / elements / map keys / unknown keys, long strings / digits) a 4x larger input may allocate at most 10x more bytes (linear = 4x, quadratic = 16x); url.Values with 22 keys x 12 value lists per schema and all key pairs of a 17-key menu. Also: 9 target types the reflection does not support (maps with non-string keys, fixed64 / sfixed32, Empty, StringValue, FieldMask; singular and repeated) x 16 documents and 8 queries, each decoded twice on one codec; an amplification oracle (documents of at most ~60 bytes, e.g. decimals with 3,000,000 as exponent, must not allocate more than 1 MiB).",
   note="termination by a 120 s watchdog; url.Values iteration order inside QueryToProto is a Go map order that is repeated, not owned",
   design="3/C06"),
  "C08": dict(
@@ -57,13 +57,13 @@ CHECKS = {
  "C18": dict(
   engine="E1",
   technique=TECH_E1 + "; full (proto field type x label x annotation) matrix of raw descriptor sets plus structural families; oracle = total + path/kind/name consistency + codec usable",
-  text="Every descriptor set of the matrix 31 field types (all 15 proto scalar kinds, enums with and without UNSPECIFIED, messages, oneof wrapper, self reference, well-known and j5 types) x 4 labels x 90 annotations ((j5.ext.v1.field) of every type, (buf.validate.field) of every type at boundary values, (j5.list.v1.field) of every type, PSM key options; consistent with the field or not) and ~60 structural sets (message options, enum shapes, real/synthetic/exposed oneofs, recursion through field/array/map/oneof/flatten, flatten chains, JSON-name collisions, nested-name collisions) is reflected through SchemaSetFromFiles and SchemaCache.Schema: no panic / fatal / hang, (schema xor error), every property path resolves to a field of the matching kind, client property names unique, and the codec encodes and decodes the empty and a populated message of every reflected type. Thorough adds all pairs of annotations on one field.",
+  text="Every descriptor set of the matrix 31 field types (all 15 proto scalar kinds, enums with and without UNSPECIFIED, messages, oneof wrapper, self reference, well-known and j5 types) x 4 labels x 90 annotations ((j5.ext.v1.field) of every type, (buf.validate.field) of every type at boundary values, (j5.list.v1.field) of every type, PSM key options; consistent with the field or not) and ~60 structural sets (message options, enum shapes, real/synthetic/exposed oneofs, recursion through field/array/map/oneof/flatten, flatten chains, JSON-name collisions, nested-name collisions) is reflected through SchemaSetFromFiles and SchemaCache.Schema: no panic / fatal / hang, (schema xor error), every property path resolves to a field of the matching kind, client property names unique, and the codec encodes and decodes the empty and a populated message of every reflected type. Thorough adds all pairs of annotations on one field. Also: a proto oneof named type next to an ordinary field, two-level flatten chains with a repeated property name; for every type whose schema does not build, the lookup is repeated on the same cache and NewRoot / the codec are called twice (must fail again, never (nil, nil), never crash). The oracle classifies oneof wrappers by its own reading of the rule.",
   note="options are typed extension messages (protodesc, no protoc); 10 open known findings (Duration / Struct / array-of-Any / map-of-Any codec support, nested-name collision) are listed in known_findings.json",
   design="3/C18"),
  "C10": dict(
   engine="E2",
   technique="stateless depth-first exploration of thread interleavings of the real codec under a cooperative scheduler (preemption-bounded, iterated), with the real Go race detector as per-execution access monitor; not sampling",
-  text="14 driver scenarios (2-3 goroutines, 1-2 encode / decode / query-decode / NewHash calls each on one shared codec, fresh or warm, incl. the package-level default; types forced to share sub-schemas, enums, recursion, a failing reflection, prefixed enum spellings, same-type pairs) are executed under every interleaving at scheduling points (thread start, call boundaries and every sync / atomic operation of lib/j5schema, lib/j5reflect, internal/codec, lib/j5codec, lib/id62, reached by rewriting their sync imports to a shim at check time) with <=3 preemptions (quick; <=2 for 3-thread / 4-call scenarios) or without bound (thorough). Oracles per execution: no data race (real -race runtime, hand-off invisible to it), no panic, no deadlock, every call's result equals its result on a fresh codec alone. Default schedule replayed twice for determinism; a racing schedule is replayed twice before it is reported.",
+  text="14 driver scenarios (2-3 goroutines, 1-2 encode / decode / query-decode / NewHash calls each on one shared codec, fresh or warm, incl. the package-level default; types forced to share sub-schemas, enums, recursion, a failing reflection, prefixed enum spellings, same-type pairs) are executed under every interleaving at scheduling points (thread start, call boundaries and every sync / atomic operation of lib/j5schema, lib/j5reflect, internal/codec, lib/j5codec, lib/id62, reached by rewriting their sync imports to a shim at check time) with <=3 preemptions (quick; <=2 for 3-thread / 4-call scenarios) or without bound (thorough). Oracles per execution: no data race (real -race runtime, hand-off invisible to it), no panic, no deadlock, every call's result equals its result on a fresh codec alone. Default schedule replayed twice for determinism; a racing schedule is replayed twice before it is reported. Scenarios O-T: a type whose reflection fails used twice (and after a warm failing call), a message with every leaf kind (bytes scratch state) encoded and decoded by several threads, Any fields carrying only a proto payload; the free-running pass has a 240 s time-out (blocked goroutines are reported as deadlock).",
   note="trusted: Go race detector; sync operations outside the shimmed packages are not scheduling points; a free-running -race pass of the same bodies is reported as cross-check",
   design="3/C10"),
  "C02": dict(
@@ -75,49 +75,49 @@ CHECKS = {
  "C17": dict(
   engine="E1",
   technique=TECH_E1 + "; entity declarations crossed over 8 dimensions, compared with a reference expansion incl. annotations",
-  text="Every entity in the enumeration (6 name casings x 5 key sets x 3 data sets x 3 status sets x 3 event sets x 3 summary sets x 3 command sets x 4 query settings; all single and pairwise deviations from a default in quick, the small dimensions fully crossed in thorough) compiles, and the output equals the reference expansion: Keys/Data/Status/State/EventType/Event, query service with Get/List/Events (verbs, paths with primary keys in declaration order), command services, publish topic, one upsert topic per summary, all names derived from the entity name; plus annotations: same entity name and the right part on every component, primary-key markers and required-ness, tenant/foreign markers, flattened keys in State/Event, required wrapper fields, state_query / state_command service options and method roles, entity name on topics.",
+  text="Every entity in the enumeration (6 name casings x 5 key sets x 3 data sets x 3 status sets x 3 event sets x 3 summary sets x 3 command sets x 4 query settings; all single and pairwise deviations from a default in quick, the small dimensions fully crossed in thorough) compiles, and the output equals the reference expansion: Keys/Data/Status/State/EventType/Event, query service with Get/List/Events (verbs, paths with primary keys in declaration order), command services, publish topic, one upsert topic per summary, all names derived from the entity name; plus annotations: same entity name and the right part on every component, primary-key markers and required-ness, tenant/foreign markers, flattened keys in State/Event, required wrapper fields, state_query / state_command service options and method roles, entity name on topics. Key sets include several markers on one key, shard keys before and after the primary key; command blocks that declare service options; types declared inside the entity block.",
   note="shard keys not generated (undocumented path effect); 1 open known finding (adjacent capitals in the entity name)",
   design="3/C17"),
  "C07": dict(
   engine="E1",
   technique=TECH_E1 + "; all token sequences up to a length bound over two alphabets, all single-chunk mutations of valid files, one semantic error per class, and the full rule x type acceptance matrix; crash / hang oracle with subprocess isolation",
-  text="Rejecting side: every concatenation of <=3 (quick) / <=4 (thorough) symbols of the 40-symbol BCL alphabet and <=4 / <=5 symbols of a 22-symbol j5s keyword alphabet, every single-chunk deletion / swap / truncation / keyword insertion of ~60 rendered valid files, and ~45 semantic-error bundles (unknown type / ref / attribute / import, duplicates, required+optional, bad formats, service and topic shape errors, cross-file and cross-package cycles, proto syntax error next to a j5s file) are offered to CompilePackage and LintFile: no panic, no fatal, no hang, (files xor error), every error carries a position inside the offending file. Accepting side: every program of C02's families and the full matrix of ~900 rule declarations (each rule kind on each field type, alone in a file that contains nothing else) compiles and links.",
+  text="Rejecting side: every concatenation of <=3 (quick) / <=4 (thorough) symbols of the 40-symbol BCL alphabet and <=4 / <=5 symbols of a 22-symbol j5s keyword alphabet, every single-chunk deletion / swap / truncation / keyword insertion of ~60 rendered valid files, and ~45 semantic-error bundles (unknown type / ref / attribute / import, duplicates, required+optional, bad formats, service and topic shape errors, cross-file and cross-package cycles, proto syntax error next to a j5s file) are offered to CompilePackage and LintFile: no panic, no fatal, no hang, (files xor error), every error carries a position inside the offending file. Accepting side: every program of C02's families and the full matrix of ~900 rule declarations (each rule kind on each field type, alone in a file that contains nothing else) compiles and links. The accepting side also covers hand-written proto files mixed with j5s, external dependencies in sibling directories (t.v1 next to t/v1beta1, t/v10), names with acronyms and digits in every container, enum info fields, shard keys, types declared inside entity blocks, command blocks with options, the pipeline families.",
   note="token sequences share a PackageSet per 1500 cases, candidates are re-run alone before being reported; 12 open known findings (10 error classes without position, float rules unimplemented, inline type named like its parent)",
   design="3/C07"),
  "C13": dict(
   engine="E1",
   technique="explicit-state breadth-first search over append-edit histories (states = programs deduplicated by canonical source text, transitions = single append edits), invariant checked on every transition and against the seed; every state is compiled by the real pipeline",
-  text="From 10 seed programs (object, oneof, enum, nested inline types, multi-file / multi-package references, service, publish / reqres / upsert topics, entity) every history of <=2 (quick) / <=3 (thorough) append edits is explored: a field of 6 kinds (string, inline object, inline enum, array of ref, inline types named like existing top-level types) at the end of every object / oneof / request / response / topic message / entity data / event; an option, status, event, method or message at the end of every enum / entity / service / publish topic; 7 kinds of top-level declaration at the end of every file (incl. names an existing inline type already has). Invariant on every transition and against the seed: every message, field (name, number, type, type name, label, JSON name, optionality, oneof), enum value (name, number), service and method (types, verb, path) of the earlier program is present and identical.",
+  text="From 10 seed programs (object, oneof, enum, nested inline types, multi-file / multi-package references, service, publish / reqres / upsert topics, entity) every history of <=2 (quick) / <=3 (thorough) append edits is explored: a field of 6 kinds (string, inline object, inline enum, array of ref, inline types named like existing top-level types) at the end of every object / oneof / request / response / topic message / entity data / event; an option, status, event, method or message at the end of every enum / entity / service / publish topic; 7 kinds of top-level declaration at the end of every file (incl. names an existing inline type already has). Invariant on every transition and against the seed: every message, field (name, number, type, type name, label, JSON name, optionality, oneof), enum value (name, number), service and method (types, verb, path) of the earlier program is present and identical. The wire identity of a method includes the google.api.http body; append kinds include enum options and statuses named *_UNSPECIFIED.",
   note="successor states are rebuilt by replaying the history on a freshly built seed; programs the compiler rejects are left to C07",
   design="3/C13"),
  "C12": dict(
   engine="E1",
   technique=TECH_E1 + "; every rule declaration of the matrix x boundary candidate values, oracle = standard validator verdict == reference predicate",
-  text="~900 declarations (integers x 4 formats x minimum / maximum x each exclusive flag; strings x length bounds x pattern; keys plain / id62 / uuid / custom; bytes lengths; bool const; enum in / notIn incl. the explicit zero option; arrays x minItems / maxItems / uniqueItems x 4 item types with and without item rules; each x required), every one compiled alone in its file, are validated with protovalidate-go on dynamic messages for every candidate value around each induced boundary (below / at / above each bound, rune-counted string lengths with multi-byte runes, matching / non-matching patterns, valid / invalid id62 and uuid, defined / undefined enum numbers, list lengths with duplicates and invalid items, absent vs zero for required fields): the validator accepts iff the reference predicate (JSON-Schema semantics, inclusive unless exclusive=true) accepts.",
+  text="~900 declarations (integers x 4 formats x minimum / maximum x each exclusive flag; strings x length bounds x pattern; keys plain / id62 / uuid / custom; bytes lengths; bool const; enum in / notIn incl. the explicit zero option; arrays x minItems / maxItems / uniqueItems x 4 item types with and without item rules; each x required), every one compiled alone in its file, are validated with protovalidate-go on dynamic messages for every candidate value around each induced boundary (below / at / above each bound, rune-counted string lengths with multi-byte runes, matching / non-matching patterns, valid / invalid id62 and uuid, defined / undefined enum numbers, list lengths with duplicates and invalid items, absent vs zero for required fields): the validator accepts iff the reference predicate (JSON-Schema semantics, inclusive unless exclusive=true) accepts. Also: map pair counts and rules of map values; enums declared in a hand-written proto file with numbers 1, 5, 10; every declaration next to a second declaration of the same family in one object (partner valid, or absent when it is an explicitly optional scalar).",
   note="the proto3 zero value of a non-required field is treated as absent and not used as a candidate; protovalidate-go v0.9.2 is the trusted validator",
   design="3/C12"),
  "C04": dict(
   engine="E1",
   technique=TECH_E1 + "; programs of the schema families compiled and reflected back, compared with an expected schema built from the program model; memory path vs text path vs cache path",
-  text="~1350 programs (single-field matrix, nesting with name overrides, enums, 10 reference forms x 3 kinds, descriptions / flatten / foreign keys, nested-vs-top-level name collisions, and the full rule matrix incl. list rules, date / decimal / timestamp / float rules and large INT64 literals) are compiled; every object, oneof and enum reflected by SchemaSetFromFiles equals the expected schema (property names, order, proto field paths, types and formats, required / optional, flatten, key formats and entity keys, descriptions, validation and list rules with inclusivity); SchemaCache.Schema gives the same schema in three query orders; and reflecting the printed .proto text re-parsed with protocompile gives exactly the same schemas.",
+  text="~1350 programs (single-field matrix, nesting with name overrides, enums, 10 reference forms x 3 kinds, descriptions / flatten / foreign keys, nested-vs-top-level name collisions, and the full rule matrix incl. list rules, date / decimal / timestamp / float rules and large INT64 literals) are compiled; every object, oneof and enum reflected by SchemaSetFromFiles equals the expected schema (property names, order, proto field paths, types and formats, required / optional, flatten, key formats and entity keys, descriptions, validation and list rules with inclusivity); SchemaCache.Schema gives the same schema in three query orders; and reflecting the printed .proto text re-parsed with protocompile gives exactly the same schemas. Also: Keys / Data objects of every entity (primary / foreign / tenant markers, several on one key, shard keys), enum info fields, inline descriptions after nested messages, empty oneofs, string formats, any options, list rules of oneof fields and of array items, map pair counts / value rules / ext.singleForm, uniqueness and counts on arrays of every item kind, enums declared in hand-written proto files with gaps in their numbers.",
   note="empty rule / ext messages == absent, exclusive=false == absent; 4 open known findings (plain key in array / map, id62 / uuid keys in maps)",
   design="3/C04"),
  "C05": dict(
   engine="E1",
   technique=TECH_E1 + "; every file the compiler emits for the program families, every hand-written repo proto and a raw option-value matrix are printed, re-parsed with protocompile and compared by an order-insensitive descriptor dump; second print must be byte-identical",
-  text="~2450 bundles: all files compiled from C02's families, the rule matrix, annotations and 8 shape programs (self / mutual references, nested types shadowing top-level ones, overlapping package prefixes, optional message fields, multi-paragraph / unicode descriptions, patterns with escapes); all 37 hand-written protos under /repo/proto; and 7 option hosts x 55 extension values (strings with every escape / control / non-BMP rune, integer and float boundaries, +-inf, NaN, bytes, enums, nested / empty / repeated messages, repeated scalars, maps). Oracle: the printed text parses and links; package, imports, messages and nesting, fields (name, number, kind, type, cardinality, proto3 optional, JSON name, real-oneof membership, map types), enums and values, services and methods, every option value (re-serialised through one resolver) and leading comments (exact) are equal; printing the re-parsed file reproduces the text.",
+  text="~2450 bundles: all files compiled from C02's families, the rule matrix, annotations and 8 shape programs (self / mutual references, nested types shadowing top-level ones, overlapping package prefixes, optional message fields, multi-paragraph / unicode descriptions, patterns with escapes); all 37 hand-written protos under /repo/proto; and 7 option hosts x 55 extension values (strings with every escape / control / non-BMP rune, integer and float boundaries, +-inf, NaN, bytes, enums, nested / empty / repeated messages, repeated scalars, maps). Oracle: the printed text parses and links; package, imports, messages and nesting, fields (name, number, kind, type, cardinality, proto3 optional, JSON name, real-oneof membership, map types), enums and values, services and methods, every option value (re-serialised through one resolver) and leading comments (exact) are equal; printing the re-parsed file reproduces the text. Also compared for compiled files: declaration order within each kind of child; option strings with control characters followed by hex digits; siblings of which only some carry a description; field names whose JSON name protoc would not derive (byUserID); external dependencies are linked from their rendered text.",
   note="declaration order is not compared; 1 open known finding (blank-line layout of hand-written protos not stable on the second print)",
   design="3/C05"),
  "C16": dict(
   engine="E1",
   technique=TECH_E1 + "; every program of the service / topic / entity / mixed / pipeline families is pushed through the whole chain compile -> print -> ReadFSImage -> APIFromImage -> APIFromSource -> J5 JSON -> BuildSwagger -> json.Marshal, each case in a crash / stack-overflow / hang isolated worker",
-  text="~800 programs: services (5 verbs x 6 path patterns x response / empty response / no response x 3 basePath forms), topics, entities (all single and pairwise deviations of the entity model), a multi-file package, every field type x {body, query, response, path} x {plain, array, map}, one list rule on one field x 13 field types x {top, nested, below a oneof arm, in a recursive item}, self- and mutually-recursive objects and oneofs in request, response, list items and entity data. Oracle: no stage errors, panics, overflows the stack or hangs; the client API JSON is valid; the client API lists exactly the declared methods (incl. the entity query and command services) with the declared verb and path; path / query / body split as the verb dictates; every path parameter occurs in the path; state entities carry name, primary key, events, state schema; every schema referenced anywhere in the client API is present in it.",
+  text="~800 programs: services (5 verbs x 6 path patterns x response / empty response / no response x 3 basePath forms), topics, entities (all single and pairwise deviations of the entity model), a multi-file package, every field type x {body, query, response, path} x {plain, array, map}, one list rule on one field x 13 field types x {top, nested, below a oneof arm, in a recursive item}, self- and mutually-recursive objects and oneofs in request, response, list items and entity data. Oracle: no stage errors, panics, overflows the stack or hangs; the client API JSON is valid; the client API lists exactly the declared methods (incl. the entity query and command services) with the declared verb and path; path / query / body split as the verb dictates; every path parameter occurs in the path; state entities carry name, primary key, events, state schema; every schema referenced anywhere in the client API is present in it. Also: names with acronyms and digits for topics, messages, methods, services and fields; cycles that only pass through oneofs; request properties whose names are prefixes of path parameters; entity keys named like the generated request fields.",
   note="which fields a list request offers is recorded as an outcome class, not judged (not part of the statement)",
   design="3/C16"),
  "C15": dict(
   engine="E1",
   technique=TECH_E1 + "; for every descriptor set: APIFromImage -> PackageSetFromSourceAPI -> ToJ5Root of every schema compared with the first export (proto.Equal), repeated on the re-exported API (second round trip), plus an independent walk of the rebuilt set for references without a target",
-  text="~14400 descriptor sets: (a) every j5s program family of C02 / C04 / C16 compiled in memory, listed in the image with all packages and with each single package; (b) raw sets: 31 proto field types x 4 labels x ~90 annotations, the 50 structures of C18 (message options, entity markers, any-membership, enum shapes and info fields, oneofs, recursion, flatten chains, one message carrying every rule / list-rule kind the reflection can produce); (c) package layouts: prefix-related package names (shop.v1 / shop.v10), sub-packages of listed and of indirect packages, cross-package object / enum / oneof references, 10 single reference edges and all together x all 15 ordered package listings. Oracle: import succeeds, no unresolved reference, every exported schema present and equal on re-export (two rounds), nothing invented.",
+  text="~14400 descriptor sets: (a) every j5s program family of C02 / C04 / C16 compiled in memory, listed in the image with all packages and with each single package; (b) raw sets: 31 proto field types x 4 labels x ~90 annotations, the 50 structures of C18 (message options, entity markers, any-membership, enum shapes and info fields, oneofs, recursion, flatten chains, one message carrying every rule / list-rule kind the reflection can produce); (c) package layouts: prefix-related package names (shop.v1 / shop.v10), sub-packages of listed and of indirect packages, cross-package object / enum / oneof references, 10 single reference edges and all together x all 15 ordered package listings. Oracle: import succeeds, no unresolved reference, every exported schema present and equal on re-export (two rounds), nothing invented. Raw annotations include open / closed any fields with and without type lists.",
   note="descriptor sets the reflection rejects are counted as a class (C18 decides whether it may); a field-coverage probe (C15_FIELDCOV) lists the schema fields no generated set populates: only fields the reflection cannot produce remain (inline object/oneof/enum, ext, object rules, oneof rules, tenant_key, multiple_of, EntityJoin)",
   design="3/C15"),
  "C14": dict(
